@@ -210,24 +210,34 @@ def live_templates():
 
 
 OPTION_POOL = [
-    ("timeline", ["1"]), ("depth", ["20", "40", "60", "120"]), ("leeway", ["16", "20", "30"]),
-    ("mup", ["-1", "4", "8"]), ("abr", ["0", "1"]), ("base", ["0", "1"]), ("acodec", ["mp4a", "ec-3"]),
-    ("events", ["ping"]), ("patch", ["1"]), ("drm", ["all", "clearkey", "playready-pro", "marlin"]),
+    ("timeline", ["1"]), ("depth", ["20", "40", "60", "120", "30", "1800"]), ("leeway", ["16", "20", "30", "60"]),
+    ("mup", ["-1", "4", "8", "30"]), ("abr", ["0", "1"]), ("base", ["0", "1"]), ("acodec", ["mp4a", "ec-3", "any"]),
+    ("events", ["ping", "scte35", "ping,scte35"]), ("patch", ["1"]),
+    ("drm", ["all", "clearkey", "playready-pro", "marlin", "playready-moov", "playready-cenc,clearkey"]),
+    # options that do not decide availability but travel with every media URL (usage bits audio/video/text)
+    ("bugs", ["saio"]), ("ping__count", ["3"]), ("ping__interval", ["200"]), ("ping__inband", ["0", "1"]),
+    ("scte35__count", ["2"]), ("scte35__inband", ["0", "1"]), ("playready__version", ["2.0", "3.0", "4.0"]),
+    ("playready__piff", ["0", "1"]), ("time", ["direct", "head", "iso", "http-ntp", "ntp"]), ("drift", ["10"]),
+    ("tcodec", ["im1t|etd1"]), ("main_audio", ["ec-3", "mp4a"]),
 ]
+_P_OPT = {"bugs": .12, "ping__count": .12, "ping__interval": .1, "ping__inband": .12, "scte35__count": .1,
+          "scte35__inband": .1, "playready__version": .12, "playready__piff": .12, "time": .15, "drift": .1,
+          "tcodec": .1, "main_audio": .1}
 
 
 def e2e_cases(ctx, rng, count):
     names = live_templates()
     out = []
     for i in range(count):
-        stream = ["bbb", "tears", "syn1", "syn2", "syn3", "syn4", "syn5", "syn6", "syn7", "syn8"][i % 10]
+        stream = ["bbb", "tears", "syn1", "syn2", "syn3", "syn4", "syn5", "syn6", "syn7", "syn8", "syn9"][i % 11]
         man = names[(i // 5) % len(names)]
         opts = {}
         for k, vals in OPTION_POOL:
-            if rng.random() < .3:
+            if rng.random() < _P_OPT.get(k, .3):
                 opts[k] = rng.choice(vals)
-        if "drm" in opts and stream != "bbb":
-            del opts["drm"]       # only bbb has encrypted tracks (C16 covers the error case)
+        if stream != "bbb":       # only bbb has encrypted tracks (C16 covers the error case)
+            for k in ("drm", "playready__version", "playready__piff"):
+                opts.pop(k, None)
         start = rng.choice(["epoch", "year", "month", "today", "now", "explicit"])
         now = datetime.datetime(rng.choice([2021, 2023, 2024, 2031]), rng.randrange(1, 13), rng.randrange(1, 28),
                                 rng.randrange(24), rng.randrange(60), rng.randrange(60),
@@ -273,11 +283,17 @@ def e2e_cases(ctx, rng, count):
                 opts["start"] = loc.strftime("%Y-%m-%dT%H:%M:%S") + f"{'%2B' if off >= 0 else '-'}{abs(off) // 60:02d}:{abs(off) % 60:02d}"
             else:
                 opts["start"] = st_.strftime("%Y-%m-%dT%H:%M:%SZ")
-        elif i % 11 == 7:
+        elif i % 13 == 7:
             # a very old stream: segment numbers beyond 2^32
             opts["start"] = rng.choice(["1000-01-01T00:00:00Z", "0100-06-01T12:00:00Z", "1479-12-31T23:59:59Z"])
         else:
             opts["start"] = start
+        if stream == "syn9" and (i // 11) % 2 == 0:
+            # the stream's stored defaults decide start, depth, leeway and update period: none of them in the URL
+            for k in ("start", "depth", "leeway", "mup"):
+                opts.pop(k, None)
+            if now.year < 2023:
+                now = now.replace(year=2023)
         # (`year` is the server default: the calendar cases leave it out of the URL half of the time)
         q = "&".join(f"{k}={v}" for k, v in opts.items() if not (k == "start" and v == "year" and i % 10 == 2))
         out.append((stream, f"/dash/live/{stream}/{man}?{q}", now, opts))
@@ -302,7 +318,7 @@ def ch_e2e(ctx) -> Channel:
     default_leeway = int(OptionsRepository.get_default_options().leeway)
     lines, recs = [], []
     with appboot.Clock("2023-01-01T00:00:00Z") as clock:
-        for stream, url, now, opts in e2e_cases(ctx, rng, ctx.scale(45, 800)):
+        for stream, url, now, opts in e2e_cases(ctx, rng, ctx.scale(55, 880)):
             trk = segchecks.tracks(app, stream)
             mpd, status, fetches = segchecks.walk_manifest(app, client, clock, stream, url, now, rng,
                                                            per_rep=ctx.scale(5, 12), want_init=True)
@@ -311,7 +327,8 @@ def ch_e2e(ctx) -> Channel:
                 continue
             for k in opts:
                 ch.count(f"option:{k}")
-            leeway_us = int(opts.get("leeway", default_leeway)) * 10 ** 6
+            leeway_us = (int(opts["leeway"]) * 10 ** 6 if "leeway" in opts
+                         else segchecks.stream_leeway_us(stream, default_leeway))
             with app.ctx() as models:
                 reps = {mf.name: mf.representation for mf in models.Stream.get(directory=stream).media_files}
             for f in fetches:
@@ -350,8 +367,24 @@ def channels(ctx):
 # ------------------------------------------------------------------ ledger / search / replay
 
 def matches_finding(finding, failure):
-    """D9 (class leeway-too-small): the failing request lies outside LeewayTime / LeewayNumber"""
-    if finding.get("class") != "leeway-too-small" or failure.get("kind") != "advertised-not-retrievable":
+    """D9 (class leeway-too-small): the failing request lies outside LeewayTime / LeewayNumber.
+    D28 (class clock-drift-option): the manifest was asked for with drift=N (N != 0) and the refused entry
+    is listed although its midpoint precedes the time-shift window as of the request instant – an entry no
+    manifest without drift lists."""
+    if failure.get("kind") != "advertised-not-retrievable":
+        return False
+    if finding.get("class") == "clock-drift-option":
+        import re
+        f = failure.get("fetch") or {}
+        m = re.search(r"[?&]drift=(-?\d+)", f.get("manifest", ""))
+        return bool(m and int(m.group(1)) != 0 and f.get("before_window") is True)
+    if finding.get("class") == "event-id-beyond-32-bits":
+        import segchecks
+        f = failure.get("fetch") or {}
+        t = segchecks.tracks(segchecks.get_app(), f.get("stream", "")).get(f.get("rep_id"))
+        return bool(t and f.get("status") == 400 and
+                    segchecks.event_id_overflow(f["manifest"], f["mode"], f["value"], f.get("adv_d"), t))
+    if finding.get("class") != "leeway-too-small":
         return False
     f = failure.get("fetch")
     if not f:
@@ -363,14 +396,15 @@ def matches_finding(finding, failure):
     if t is None:
         return False
     m = re.search(r"[?&]leeway=(\d+)", f["url"])
-    lee_us = (int(m.group(1)) if m else int(OptionsRepository.get_default_options().leeway)) * 10 ** 6
+    lee_us = (int(m.group(1)) * 10 ** 6 if m else
+              segchecks.stream_leeway_us(f["stream"], int(OptionsRepository.get_default_options().leeway)))
     if f["mode"] == "number" and f.get("listed_index") is None:
         return not (2 * t.sd * 10 ** 6 + t.ts <= lee_us * t.ts)
     return not ((max(t.durs) // 2 + 1) * 10 ** 6 + t.ts <= lee_us * t.ts and max(t.durs) // 2 <= t.sd)
 
 
 def replay_finding(ctx, finding):
-    """D9: leeway=0 – the first listed entry is refused"""
+    """D9: leeway=0 – the first listed entry is refused; D28: drift=10 – the oldest listed entries are refused"""
     import appboot
     import segchecks
     import segwalk
@@ -382,7 +416,14 @@ def replay_finding(ctx, finding):
         import random
         mpd, status, fetches = segchecks.walk_manifest(app, client, clock, w["stream"], w["manifest"], now,
                                                        random.Random(0), per_rep=400, want_init=False)
-        return any(f.end_le_now and f.status != 200 for f in fetches)
+        bad = [f for f in fetches if f.end_le_now and f.status != 200]
+        if finding.get("class") == "clock-drift-option":
+            return any(f.before_window for f in bad)
+        if finding.get("class") == "event-id-beyond-32-bits":
+            trk = segchecks.tracks(app, w["stream"])
+            return any(f.status == 400 and segchecks.event_id_overflow(f.manifest, f.mode, f.value, f.adv_d, trk[f.rep_id])
+                       for f in bad if f.rep_id in trk)
+        return bool(bad)
 
 
 def search(ctx, disagreements):
